@@ -7,7 +7,7 @@ import itertools
 from ..model import CFG, PDA, FST, ENFA, RSA, BOX
 from . import names
 from .common import site_of
-from .flow import (code_nodes, block_atoms, own, Oblig, calls, events, deps_of, arg_deps, SELF, P, result_locs)
+from .flow import (fold_consts, code_nodes as _code_nodes, block_atoms, own, Oblig, calls, events, deps_of, arg_deps, SELF, P, result_locs)
 
 EXPLANATION = (
     "Decides writer / reader agreement, from constants and boolean structure only: for automata, PDAs and transducers "
@@ -34,6 +34,17 @@ def run(eng, rep, tier):
     prog, interp = eng.prog, eng.interp
     rep.explanation = EXPLANATION
     ob = Oblig(eng, rep, "C20")
+    _folded = {}
+
+    def K(fi):
+        """the function with module- / class-level string constants folded in (a separator or a reserved name kept in a
+        constant is the same separator)"""
+        if fi.qname not in _folded:
+            _folded[fi.qname] = fold_consts(prog, fi.module, fi.node, fi.cls)
+        return _folded[fi.qname]
+
+    def code_nodes(prog_, fi):
+        return [fold_consts(prog_, fi.module, n_, fi.cls) for n_ in _code_nodes(prog_, fi)]
 
     # -------------------------------------------------------------- C20.1 networkx writer / reader
     for cname in ("EpsilonNFA", "PDA", "FST"):
@@ -42,11 +53,11 @@ def run(eng, rep, tier):
         helper = prog.functions["pyformlang.finite_automaton.finite_automaton.add_start_state_to_graph"]
         written = set()
         for fn in (w, helper):
-            for c in ast.walk(fn.node):
+            for c in ast.walk(K(fn)):
                 if isinstance(c, ast.Call) and isinstance(c.func, ast.Attribute) and c.func.attr in ("add_node", "add_edge"):
                     written |= {k.arg for k in c.keywords if k.arg}
         read = set()
-        for c in ast.walk(r.node):
+        for c in ast.walk(K(r)):
             if isinstance(c, ast.Call) and isinstance(c.func, ast.Attribute) and c.func.attr == "get" and c.args and \
                     isinstance(c.args[0], ast.Constant) and isinstance(c.args[0].value, str):
                 read.add(c.args[0].value)
@@ -64,8 +75,8 @@ def run(eng, rep, tier):
         ob.decide("R7", "C20.1", r, "start-final-label-read:" + cname, need <= read,
                   "start marking, final marking and edge labels are read back",
                   "from_networkx does not read back %s" % sorted(need - read), None, site=site_of(prog, r, r.node))
-        wsep = [c for c in consts(w.node) if c.startswith(" ") and c.endswith(" ") and len(c) > 2]
-        rsep = [c.args[0].value for c in ast.walk(r.node) if isinstance(c, ast.Call) and isinstance(c.func, ast.Attribute)
+        wsep = [c for c in consts(K(w)) if c.startswith(" ") and c.endswith(" ") and len(c) > 2]
+        rsep = [c.args[0].value for c in ast.walk(K(r)) if isinstance(c, ast.Call) and isinstance(c.func, ast.Attribute)
                 and c.func.attr == "split" and c.args and isinstance(c.args[0], ast.Constant)]
         ob.decide("R7", "C20.1", r, "separators-agree:" + cname, sorted(wsep) == sorted(rsep),
                   "label separators written %s = separators split on" % wsep,
@@ -82,9 +93,9 @@ def run(eng, rep, tier):
                   site=site_of(prog, r, r.node))
     w = prog.method("EpsilonNFA", "to_networkx")
     ts = prog.functions["pyformlang.finite_automaton.finite_automaton.to_symbol"]
-    eps_written = [c for c in consts(w.node) if c in ("ɛ", "epsilon", "ε", "$")]
+    eps_written = [c for c in consts(K(w)) if c in ("ɛ", "epsilon", "ε", "$")]
     accepted = set()
-    for c in ast.walk(ts.node):
+    for c in ast.walk(K(ts)):
         if isinstance(c, ast.Compare) and isinstance(c.ops[0], ast.In) and isinstance(c.comparators[0], ast.Tuple):
             accepted |= {e.value for e in c.comparators[0].elts if isinstance(e, ast.Constant)}
     ob.decide("R7", "C20.1", w, "epsilon-spelling-accepted", bool(eps_written) and set(eps_written) <= accepted,
@@ -92,14 +103,14 @@ def run(eng, rep, tier):
               "to_networkx writes epsilon as %s, to_symbol accepts %s" % (eps_written, sorted(accepted)), None,
               site=site_of(prog, w, w.node))
     pw, pr = prog.method("PDA", "to_networkx"), prog.method("PDA", "from_networkx")
-    hid_w = [c for c in consts(pw.node) if c.isupper() and "_" in c]
-    hid_r = [c for c in consts(pr.node) if c.isupper() and "_" in c]
+    hid_w = [c for c in consts(K(pw)) if c.isupper() and "_" in c]
+    hid_r = [c for c in consts(K(pr)) if c.isupper() and "_" in c]
     ob.decide("R7", "C20.1", pr, "hidden-stack-node-name-agrees", bool(hid_w) and set(hid_w) == set(hid_r),
               "writer and reader use the same hidden start-stack node name",
               "hidden start-stack node: written %s, read %s" % (hid_w, hid_r), None, site=site_of(prog, pr, pr.node))
     helper = prog.functions["pyformlang.finite_automaton.finite_automaton.add_start_state_to_graph"]
-    pre_w = {c for c in consts(helper.node) if c.endswith("_")}
-    pre_r = {c.args[0].value for c in ast.walk(pr.node) if isinstance(c, ast.Call) and isinstance(c.func, ast.Attribute)
+    pre_w = {c for c in consts(K(helper)) if c.endswith("_")}
+    pre_r = {c.args[0].value for c in ast.walk(K(pr)) if isinstance(c, ast.Call) and isinstance(c.func, ast.Attribute)
              and c.func.attr == "startswith" and c.args and isinstance(c.args[0], ast.Constant)}
     ob.decide("R7", "C20.1", pr, "pseudo-node-prefix-agrees", pre_r <= pre_w,
               "the prefix skipped by the reader is the prefix of the writer's pseudo-nodes",
@@ -111,9 +122,9 @@ def run(eng, rep, tier):
     ist = prog.functions["pyformlang.cfg.cfg.is_special_text"]
     vt = prog.functions["pyformlang.cfg.variable.Variable.to_text"]
     tt = prog.functions["pyformlang.cfg.terminal.Terminal.to_text"]
-    wv = [c for c in consts(vt.node) if ":" in c]
-    wt = [c for c in consts(tt.node) if ":" in c]
-    rm = [c for c in consts(ist.node) if ":" in c]
+    wv = [c for c in consts(K(vt)) if ":" in c]
+    wt = [c for c in consts(K(tt)) if ":" in c]
+    rm = [c for c in consts(K(ist)) if ":" in c]
     ob.decide("R7", "C20.2", rl, "markers-agree", sorted(wv + wt) == sorted(rm) and len(rm) == 2,
               "the markers written by to_text are the ones recognised by the reader",
               "markers written %s, recognised %s" % (wv + wt, rm), None, site=site_of(prog, ist, ist.node))
@@ -194,7 +205,7 @@ def run(eng, rep, tier):
         def pred_classes_(t):
             return _pc(t, defs)
         cands = []
-        for sub in ast.walk(fn.node):
+        for sub in ast.walk(K(fn)):
             if isinstance(sub, ast.If):
                 # the marker is put on by a return or by an assignment (`text = '"VAR:' + text + '"'`) in one branch
                 in_body = any(isinstance(r, (ast.Return, ast.Assign, ast.AugAssign)) and has_marker(r) for r in sub.body)
@@ -215,7 +226,7 @@ def run(eng, rep, tier):
         return None
     mark_v, mark_t = marker_pred(vt), marker_pred(tt)
     reader_upper = None
-    for sub in ast.walk(rl.node):
+    for sub in ast.walk(K(rl)):
         if isinstance(sub, ast.Compare) and "ascii_uppercase" in ast.unparse(sub):
             reader_upper = pred_classes(sub)
         elif isinstance(sub, ast.Call) and isinstance(sub.func, ast.Attribute) and sub.func.attr == "isupper" and \
@@ -241,7 +252,7 @@ def run(eng, rep, tier):
     # -------------------------------------------------------------- C20.3 recursive automata
     fe = prog.method("RecursiveAutomaton", "from_ebnf")
     se = interp.run_entry(fe, RSA)
-    joins = [c for c in consts(fe.node) if c.strip() in ("|", "+") and c != c.strip()]
+    joins = [c for c in consts(K(fe)) if c.strip() in ("|", "+") and c != c.strip()]
     ob.decide("R1", "C20.3", fe, "alternatives-joined-by-union", bool(joins) and all(j.strip() in ("|", "+") for j in joins),
               "several productions of one head are joined with a union spelling",
               "alternatives of a head are not joined with a union operator", se, site=site_of(prog, fe, fe.node))
@@ -256,12 +267,24 @@ def run(eng, rep, tier):
     # a Box is built inside a loop / comprehension over the (head, body) items of a mapping
     def _over_items(it):
         return isinstance(it, ast.Call) and isinstance(it.func, ast.Attribute) and it.func.attr == "items"
-    def _has_box(node):
-        return any(isinstance(c, ast.Call) and getattr(c.func, "id", "") == "Box" for c in ast.walk(node))
+    from .flow import helpers_of
+    _hs = helpers_of(prog, fe)
+
+    def _has_box(node, depth=0):
+        """a Box is constructed there - directly, or by a private helper called there"""
+        for c in ast.walk(node):
+            if isinstance(c, ast.Call):
+                nm = c.func.attr if isinstance(c.func, ast.Attribute) else getattr(c.func, "id", "")
+                if nm == "Box":
+                    return True
+                h = _hs.get(nm) if nm.startswith("_") and not nm.endswith("__") else None
+                if h is not None and depth < 2 and any(_has_box(st, depth + 1) for st in h.body):
+                    return True
+        return False
     per_head = any((isinstance(l, ast.For) and _over_items(l.iter) and _has_box(l)) or
                    (isinstance(l, (ast.ListComp, ast.SetComp, ast.GeneratorExp)) and _has_box(l.elt)
                     and any(_over_items(g.iter) for g in l.generators))
-                   for l in ast.walk(fe.node))
+                   for l in ast.walk(K(fe)))
     ob.decide("R1", "C20.3", fe, "one-box-per-head", per_head, "one box per head", "from_ebnf does not build one box per head",
               None, site=site_of(prog, fe, fe.node))
     fr = prog.method("RecursiveAutomaton", "from_regex")
